@@ -947,7 +947,7 @@ pub mod fastq {
                 && r.cursor() == self.cursor() && r.f() == self.f(),
 //@end
 
-//@fn fastq::Reader::next ret=r tags=C02,C03,C05,C06,C14,C17
+//@fn fastq::Reader::next ret=r tags=C02,C03,C05,C06,C09,C14,C17
 //@spec
         requires
             old(self).wf(),
@@ -957,6 +957,9 @@ pub mod fastq {
             [C02,C03,C04,C06|fastq.next.end] r is None ==> final(self).buf_reader.errs() == old(self).buf_reader.errs()
                 && (old(self).state == State::Finished || old(self).poisoned() || !old(self).clean() || end_ok(old(self).f(), old(self).cursor())),
             [C02,C04,C20|fastq.next.end_is_sticky] old(self).state == State::Finished ==> r is None,
+            [C09|fastq.next.capacity_monotone] final(self).buf_reader.cap() >= old(self).buf_reader.cap(),
+            [C09|fastq.next.growth_only_when_record_does_not_fit] old(self).clean() && !old(self).poisoned() && final(self).buf_reader.cap() > old(self).buf_reader.cap() ==>
+                nofit(old(self).f(), old(self).cursor(), old(self).buf_reader.cap() as int),
             [C14|fastq.next.source_errors_are_not_swallowed] (r is None || r matches Some(Ok(_))) ==> final(self).buf_reader.errs() == old(self).buf_reader.errs(),
             [C02,C03,C04,C06,C12|fastq.next.record] r matches Some(Ok(rec)) ==> final(self).buf_reader.errs() == old(self).buf_reader.errs()
                 && old(self).state != State::Finished
